@@ -182,3 +182,64 @@ def check_result(pb, settings, obs, exact=True, slack=None, lb_present=True, ub_
         if cdg and not (abs(pobj - dobj_lib) < lim(ega, egr, grel)):
             V.append(("C01.gap", "SOLVED but duality gap %.6g >= %.6g" % (float(abs(pobj - dobj_lib)), float(ega + egr * grel))))
     return V
+
+
+def pmat(sv):
+    """dense matrix dump 'rows cols v...' column-major -> list of rows"""
+    t = sv.split(); r, c = int(t[0]), int(t[1]); vals = [pf(x) for x in t[2:2 + r * c]]
+    return [[vals[j * r + i] for j in range(c)] for i in range(r)], r, c
+
+def check_scaling(pb, obs, lb_present=True, ub_present=True):
+    """C15 oracle on the implementation's state after setup()/update(): the preconditioner's scalings are positive,
+    its inverses are inverses on EVERY slot, and the stored data are the user data transformed by the reported scalings."""
+    V = []
+    if "pc.delta" not in obs: return V
+    n, p, m = pb["n"], pb["p"], pb["m"]
+    c, ci = pf(obs["pc.c"]), pf(obs["pc.c_inv"])
+    d, di = pvec(obs["pc.delta"]), pvec(obs["pc.delta_inv"])
+    dl, dli = pvec(obs["pc.delta_lb"]), pvec(obs["pc.delta_lb_inv"])
+    du, dui = pvec(obs["pc.delta_ub"]), pvec(obs["pc.delta_ub_inv"])
+    allv = [c, ci] + d + di + dl + dli + du + dui
+    if any(not is_num(v) for v in allv):
+        V.append(("C15.defined", "preconditioner state contains a non-number: %s" % [str(v) for v in allv if not is_num(v)][:3])); return V
+    if c * ci != 1 or c <= 0: V.append(("C15.inverse", "c*c_inv = %s" % (c * ci)))
+    for nm, a, b in (("delta", d, di), ("delta_lb", dl, dli), ("delta_ub", du, dui)):
+        if len(a) != len(b): V.append(("C15.inverse", "%s length mismatch" % nm)); continue
+        for i in range(len(a)):
+            if a[i] <= 0: V.append(("C15.positive", "%s[%d] = %s" % (nm, i, a[i])))
+            if a[i] * b[i] != 1: V.append(("C15.inverse", "%s[%d]*%s_inv[%d] = %s (slot %s)" % (nm, i, nm, i, a[i] * b[i], "active" if True else "")))
+    if V: return V
+    rows, lb, ub = effective(dict(pb, lb=pb["lb"] if lb_present else None, ub=pb["ub"] if ub_present else None))
+    P = symP(pb)
+    Pd, _, _ = pmat(obs["P_utri"])
+    for i in range(n):
+        for j in range(i, n):
+            if Pd[i][j] != c * d[i] * d[j] * P[i][j]:
+                V.append(("C15.transform", "P_utri(%d,%d) = %s but c*d_i*d_j*P = %s" % (i, j, Pd[i][j], c * d[i] * d[j] * P[i][j])))
+    ATd, _, _ = pmat(obs["AT"]); GTd, _, _ = pmat(obs["GT"])
+    for i in range(n):
+        for k in range(p):
+            if ATd[i][k] != d[i] * d[n + k] * pb["A"][k][i]: V.append(("C15.transform", "AT(%d,%d)" % (i, k)))
+        for k in range(m):
+            want = d[i] * d[n + p + k] * pb["G"][k][i] if k in rows else Fr(0)
+            if GTd[i][k] != want: V.append(("C15.transform", "GT(%d,%d) = %s expected %s" % (i, k, GTd[i][k], want)))
+    cd = pvec(obs["c"]); bd = pvec(obs["b"]); hd = pvec(obs["h"])
+    for i in range(n):
+        if cd[i] != c * d[i] * Fr(pb["c"][i]): V.append(("C15.transform", "c[%d]" % i))
+    for k in range(p):
+        if bd[k] != d[n + k] * Fr(pb["b"][k]): V.append(("C15.transform", "b[%d]" % k))
+    for k in range(m):
+        want = d[n + p + k] * (bound_val(pb["h"][k]) if k in rows else Fr(1))
+        if hd[k] != want: V.append(("C15.transform", "h[%d] = %s expected %s" % (k, hd[k], want)))
+    lbi = [int(x) for x in obs["x_lb_idx"].split()[1:]]; ubi = [int(x) for x in obs["x_ub_idx"].split()[1:]]
+    if lbi != [i for i in range(n) if lb[i] is not None]: V.append(("C15.pattern", "x_lb_idx = %s" % lbi))
+    if ubi != [i for i in range(n) if ub[i] is not None]: V.append(("C15.pattern", "x_ub_idx = %s" % ubi))
+    if V: return V
+    lbn, ubv = pvec(obs["x_lb_n"]), pvec(obs["x_ub"]); lbs, ubs = pvec(obs["x_lb_scaling"]), pvec(obs["x_ub_scaling"])
+    for k, i in enumerate(lbi):
+        if lbn[k] != dl[k] * (-lb[i]): V.append(("C15.transform", "x_lb_n[%d]" % k))
+        if lbs[k] != dl[k] * d[i]: V.append(("C15.transform", "x_lb_scaling[%d] = %s expected %s" % (k, lbs[k], dl[k] * d[i])))
+    for k, i in enumerate(ubi):
+        if ubv[k] != du[k] * ub[i]: V.append(("C15.transform", "x_ub[%d]" % k))
+        if ubs[k] != du[k] * d[i]: V.append(("C15.transform", "x_ub_scaling[%d] = %s expected %s" % (k, ubs[k], du[k] * d[i])))
+    return V
